@@ -112,6 +112,27 @@ let () =
       Printf.printf "E %s %s\n" id (String.concat ";" (List.map show regs))
     | ["EO"; id; q; x; c; m; r] ->
       Printf.printf "EO %s %s\n" id (b01 (eg_open (zh q) (zh x) (pair_of c) (zh m) (zh r)))
+    | ["QP"; id; q; g1; h1; g2; h2] ->
+      let k1 = { pk_g = pair_of g1; pk_h = pair_of h1 } and k2 = { pk_g = pair_of g2; pk_h = pair_of h2 } in
+      Printf.printf "QP %s %s\n" id (b01 (ped_key_eqb (zh q) k1 k2))
+    | ["QT"; id; q; g1; l1; g2; l2] ->
+      let k1 = { tk_g = pair_of g1; tk_lambda = zh l1 } and k2 = { tk_g = pair_of g2; tk_lambda = zh l2 } in
+      Printf.printf "QT %s %s\n" id (b01 (ped_tkey_eqb (zh q) k1 k2))
+    | ["QI"; id; n1; s1; t1; n2; s2; t2] ->
+      let k1 = { ik_n = zh n1; ik_s = zh s1; ik_t = zh t1 } and k2 = { ik_n = zh n2; ik_s = zh s2; ik_t = zh t2 } in
+      Printf.printf "QI %s %s\n" id (b01 (int_key_eqb k1 k2))
+    | ["QJ"; id; n1; t1; l1; o1; n2; t2; l2; o2] ->
+      let k1 = { itk_n = zh n1; itk_t = zh t1; itk_lambda = zh l1; itk_ord = zh o1 }
+      and k2 = { itk_n = zh n2; itk_t = zh t2; itk_lambda = zh l2; itk_ord = zh o2 } in
+      Printf.printf "QJ %s %s\n" id (b01 (int_tkey_eqb k1 k2))
+    | ["QL"; id; q; a; b] ->
+      Printf.printf "QL %s %s\n" id (b01 (lf_eqb (lf_norm (zh q) (pair_of a)) (lf_norm (zh q) (pair_of b))))
+    | ["QS"; id; q; a; b] ->
+      Printf.printf "QS %s %s\n" id (b01 (eg_key_eqb (zh q) (zh a) (zh b)))
+    | ["QZ"; id; a; b] ->
+      Printf.printf "QZ %s %s\n" id (b01 (Big_int_Z.eq_big_int (zh a) (zh b)))
+    | ["QB"; id; a; b] ->
+      Printf.printf "QB %s %s\n" id (b01 (bytes_eqb (bytes_of_hex a) (bytes_of_hex b)))
     | "T" :: id :: name :: rest ->
       let cmds = match rest with [c] -> List.map parse_cmd (split_on ';' c) | _ -> [] in
       let (_, outs) = crun [new_transcript (bytes_of_hex name)] cmds in
